@@ -318,6 +318,19 @@ def source_digest(model: SrcModel) -> str:
     return h.hexdigest()[:24]
 
 
+EXTRA_TREES = [
+    # deeper / wider shapes that no size bound reaches: bracketed groups on both sides, four format keys, zero-padded
+    # keys, the same format key in both branches, hints shared between operands, 93x keys, unattached format constraints
+    "([1][901] U [902]) O ([3][903] U [904])", "(([1][901] U [3][902]) O ([1][903] U [3][904])) U [905]",
+    "[1][905] U (([1][901] U [3][902]) O ([1][903] U [3][904]))", "([1][901] O [3][902]) U [905]",
+    "[1][0901]", "[1][0901] O [2][901]", "[01] U [2][902]", "[1][901] X [3][901]", "[1][901] U [3][901]", "[1][901] O [1][901]",
+    "([1] U [501]) O ([2] U [501])", "([1] U [501])[901]", "(([1] U [501]) X ([3] U [502]))[901]", "([1] U [501])[901] O [2]",
+    "[2] U [901]", "([2] U [901]) O ([1] U [902])", "[101] U [1][901]", "[101] U [501][901]", "[1][932] O [2][933]", "[501] U [931]",
+    "[1] U [2] U [3] U [4]", "[1] O ([2] X ([3] U [4]))", "(([1] U [2]) O [3]) X [4]", "[1][901] U [2][902] U [3][903]",
+    "[2000] U [2499][901]", "[499] O [1]", "[1] U [900] U [500]", "[999][1] X [2]",
+]
+
+
 def cached_sweep(model: SrcModel, tier: str):
     """Problems of the whole-tree sweep for this source digest: (n_trees, n_evaluations, [(rule, key, msg)], errors)."""
     import json
@@ -329,6 +342,11 @@ def cached_sweep(model: SrcModel, tier: str):
         trees += [t for t in enumerate_trees(3, ("1", "2", "501", "901")) if t not in seen]
     else:
         trees = enumerate_trees(bound, leaves)
+    seen_ = set(trees)
+    for text in EXTRA_TREES:
+        e = refsem.parse_condition(text)
+        if refsem.in_quantifier(e) and e not in seen_:
+            trees.append(e)
     def compute():
         res = sweep(model, trees)
         problems = [list(p) for _, ps, _ in res for p in ps]
